@@ -1502,6 +1502,13 @@ func (fr *frame) chanEvent(kind string, ch ssa.Value, st *State, g string, pos t
 				continue
 			}
 			env := root.specEnvAt(st)
+			if root.eventVal != nil {
+				env.vars["sent"] = *root.eventVal
+			}
+			if root.atCallSeen == nil {
+				root.atCallSeen = map[*Clause]bool{}
+			}
+			root.atCallSeen[c] = true
 			vc.oblige("at-event", kind+"-"+name+":"+lab, g, env.trBool(e), "at "+kind+" on "+name+": "+txt, root.props, posOf(fr.fn, pos))
 		}
 	}
@@ -1519,6 +1526,9 @@ func chanFieldName(ch ssa.Value) string {
 		if fa, ok := x.X.(*ssa.FieldAddr); ok {
 			st := fa.X.Type().Underlying().(*types.Pointer).Elem().Underlying().(*types.Struct)
 			return st.Field(fa.Field).Name()
+		}
+		if fv, ok := x.X.(*ssa.FreeVar); ok { // a channel variable captured by the closure
+			return fv.Name()
 		}
 	case *ssa.Parameter:
 		return x.Name()
